@@ -189,6 +189,7 @@ class World:
         Gauge('up', 'plain gauge', registry=self.reg).set(1)
         Summary('rt', 'a summary', registry=self.reg).observe(0.25)
         Gauge('a,b', 'a UTF-8 metric name that contains a comma', registry=self.reg).set(7)
+        Summary('dur\u00e9e', 'a non-ASCII UTF-8 metric name', registry=self.reg).observe(1.5)
         Info('build', 'build info', registry=self.reg).info({'version': '1'})
         self.enc = {'text': exposition.generate_latest, 'om': om.generate_latest}
         self.exposition = exposition
@@ -431,7 +432,8 @@ def gen_malformed(rng, lit):
 
 NAME_KEYS = ['name[]', 'name[]', 'name%5B%5D', 'name%5b%5d', 'name[%5D', 'n%61me[]']
 OTHER_KEYS = ['foo', 'name', 'name[]x', 'xname[]', 'names[]', 'name%5B', 'NAME[]', 'name[][]', 'match[]']
-NAME_VALUES = ['a,b', 'a%2Cb', 'up,reqs_total', 'up%2Creqs_total', 'up,', ',up', 'a,b,up', 'a', 'reqs', 'reqs', 'lat_seconds', 'rt', 'build', 'rt_count', 'rt_sum', 'rt_created', 'lat_seconds_count', 'reqs', 'reqs_total', 'reqs_created', 'temp_celsius', 'lat_seconds', 'lat_seconds_bucket', 'lat_seconds_sum', 'up',
+NAME_VALUES = ['dur%C3%A9e_count', 'dur%C3%A9e_sum', 'dur%C3%A9e', 'dur%c3%a9e_count', 'dur\xc3\xa9e_count', 'dur\xe9e_count', 'dur%E9e_count',
+               'a,b', 'a%2Cb', 'up,reqs_total', 'up%2Creqs_total', 'up,', ',up', 'a,b,up', 'a', 'reqs', 'reqs', 'lat_seconds', 'rt', 'build', 'rt_count', 'rt_sum', 'rt_created', 'lat_seconds_count', 'reqs', 'reqs_total', 'reqs_created', 'temp_celsius', 'lat_seconds', 'lat_seconds_bucket', 'lat_seconds_sum', 'up',
                'build_info', 'build', 'nonexistent', '', '', 'temp%5Fcelsius', 'u%70', 'a+b', '%C3%A9', 'up&', 'reqs%26up', 'up=1']
 
 
@@ -490,6 +492,8 @@ def corpus():
            c(q='name[]=rt&name[]=rt_sum&name[]=up', acc=[OM]), c(q='name[]=lat_seconds&name[]=lat_seconds_bucket&name[]=build_info', ae=['gzip']),
            c(q='name[]=up,reqs_total'), c(q='name[]=up%2Creqs_total'), c(q='name[]=a,b'), c(q='name%5B%5D=a%2Cb', acc=[OM], ae=['gzip']),
            c(q='name[]=a,b&name[]=up'), c(q='name[]=up,'), c(q='name[]=,'), c(q='name[]=a&name[]=b'),
+           c(q='name[]=dur%C3%A9e_count'), c(q='name%5B%5D=dur%C3%A9e_sum&name[]=up', acc=[OM], ae=['gzip']), c(q='name[]=dur%C3%A9e'),
+           c(q='name[]=dur\xc3\xa9e_count'), c(q='name[]=dur\xe9e_count'), c(q='name[]=dur%E9e_count'),
            c(q='&&name[]=up&&'), c(q='=&==&name[]'), c(acc=[OM], q='a=1#name[]=up')]
     out = [wire_case(x) for x in out]
     for m in METHODS:
@@ -622,6 +626,21 @@ def oracle_wsgi_other(r, method):
     return fails
 
 
+PARSE_ARGS = None     # (encoding, errors) asgi.py passes to parse_qs when not the defaults; asked from the driver (`c17 info`)
+
+
+def fetch_parse_args(ctx):
+    global PARSE_ARGS
+    PARSE_ARGS = None
+    rep = ctx.driver.run(['c17 info'])
+    if rep is None or not rep[0].startswith('ok '):
+        return
+    enc, err, dflt = rep[0][3:].split(' ')
+    if dflt != '1':
+        PARSE_ARGS = (lib.unhx(enc) or 'utf-8', lib.unhx(err) or 'replace')
+        ctx.notes.append('asgi.py calls parse_qs with encoding=%r errors=%r' % PARSE_ARGS)
+
+
 def xl(t):
     """a byte string written as latin-1 text -> x:<hex>"""
     return lib.xb(t.encode('latin-1'))
@@ -641,15 +660,19 @@ def driver_line(case, disable):
     hq = urlparse(target).query
     table.setdefault(hq, parse_qs(hq))
     pt = lib.enc_list(['%s=%s' % (lib.hx(q), enc_dict(d)) for q, d in table.items()])
+    pa = '.'
+    if PARSE_ARGS is not None:       # asgi.py passes its own encoding= / errors= to parse_qs: the model needs that function too
+        pa = lib.enc_list(['%s=%s' % (lib.hx(q), enc_dict(parse_qs(q, encoding=PARSE_ARGS[0], errors=PARSE_ARGS[1])))
+                           for q in table])
     try:
         pbytes = parse_qs(case['q'].encode('latin-1'))
         pb = lib.enc_list(['%s>%s' % (lib.xb(k), ','.join(lib.xb(v) for v in vs)) for k, vs in pbytes.items()])
     except UnicodeError:
         pb = '!'        # parse_qs(<bytes>) raises on non-ASCII escapes / bytes (a fact about the standard library)
     oth = lib.enc_list(['%s>%s' % (xl(n), xl(v)) for n, v in case['others']])
-    return 'c17 req %s %s %s %s %s %s %s %s %s %s %s %d' % (
+    return 'c17 req %s %s %s %s %s %s %s %s %s %s %s %s %d' % (
         lib.hx(case['method']), '-' if case['path'] is None else lib.hx(unquote(case['path'], 'iso-8859-1')), lib.hx(target),
-        xl(case['q']), enc_acc(case['acc']), enc_acc(case['ae']), xl(case['an']), xl(case['aen']), oth, pt, pb, 1 if disable else 0)
+        xl(case['q']), enc_acc(case['acc']), enc_acc(case['ae']), xl(case['an']), xl(case['aen']), oth, pt, pa, pb, 1 if disable else 0)
 
 
 def parse_obs(txt):
@@ -799,6 +822,7 @@ def shrink(world, case, sig):
 
 
 def run_cases(ctx, world, cases, verbose=False):
+    fetch_parse_args(ctx)
     lines = []
     for c in cases:
         lines.append(driver_line(c, False))
@@ -977,6 +1001,8 @@ def run(ctx):
     ctx.extra['scope_notes'] = [
         'repeated Accept / Accept-Encoding field lines are out of scope of the agreement oracle (MetricsHandler reads the first line only)',
         'GET /favicon.ico on WSGI (200, empty body) is compared with the model only',
+        'percent-escapes in the query string are UTF-8 (name[]=dur%C3%A9e_count asks for durée_count on every front-end); raw non-ASCII query '
+        'bytes are latin-1 text on every front-end (RFC 3986 has none) and so address no UTF-8 name',
         'blank name[] values do not count; a name[] value is ONE name, commas included (name[]=a,b asks for the metric named a,b); '
         'media types compared case-sensitively, codings case-insensitively',
         'the expected restricted body is computed without the library restriction code (own sample-name filter over one full collect, '
